@@ -39,6 +39,7 @@ KINDS = [
     "item_too_large",
     "struct_update_bad_field",
     "struct_from_other_size_xobject",
+    "scalar_given_sequence",
     "union_non_member",
     "other_context",
     "offset_without_buffer",
@@ -349,6 +350,29 @@ def run_case(case):
             parent = mat.obj_get(obj, node, path[:-1])
             applied = True
             return lambda: mat.obj_set(parent[0], parent[1], path[-1:], src)
+        if kind == "scalar_given_sequence":
+            # a sequence where one number is expected: a struct field, an array item, or one item of a whole-array update
+            # (placed late, so that a partial update would show)
+            leaves = [(pp, s_) for pp, s_ in mat.leaf_paths(spec, model) if pp and s_["k"] == "scalar"]
+            if not leaves:
+                return ("na",)
+            path, ls = leaves[mu["li"] % len(leaves)]
+            seq = [1, 2] if mu["variant"] % 2 else np.array([3, 4, 5], dtype=mat.NP_DTYPES[ls["t"]])
+            v = mu["variant"] % 3
+            if v == 2 and path[-1][0] == "i":
+                # whole 1-D array of scalars, the LAST item is a sequence
+                apath = path[:-1]
+                _, av = mat.model_get(spec, model, apath)
+                if len(av["shape"]) == 1 and av["shape"][0] >= 2 and apath and apath[-1][0] != "d":
+                    new_items = [(1 if not ls["t"].startswith("Float") else 1.5)] * (av["shape"][0] - 1) + [[1, 2]]
+                    parent = mat.obj_get(obj, node, apath[:-1])
+                    applied = True
+                    labels.add("sequence_as_last_item_of_whole_update")
+                    return lambda: mat.obj_set(parent[0], parent[1], apath[-1:], new_items)
+            parent = mat.obj_get(obj, node, path[:-1])
+            applied = True
+            labels.add("sequence_into_" + ("item" if path[-1][0] == "i" else "field"))
+            return lambda: mat.obj_set(parent[0], parent[1], path[-1:], seq)
         if kind == "other_context":
             other = xo.ContextCpu()
             applied = True
